@@ -203,3 +203,30 @@ def o3_4_confirm(v, out):
     then runs and every live snapshot must still read the value it saw."""
     if out.get('_rc') != 0: return (True, 'native run panicked: %s' % out.get('_stderr', '')[-200:])
     return (out.get('wrong', '0') != '0', 'native: after a full compaction %s of %s live snapshots read another value than when they were taken (first: %s)' % (out.get('wrong'), out.get('live'), out.get('first_wrong')))
+
+
+def o3_5_compaction_state_bound(mir, tier):
+    """CompactionState::new(manifest, s) followed by get_smallest_snapshot(): the bound the keep / drop rule of the merge loop (O3.2b)
+    consults is exactly the oldest-snapshot sequence number the prologue of compact_tables computed (O3.2a), for every 64-bit s;
+    the manifest handed in is the one handed back and no output exists yet."""
+    new = mir.method('CompactionState', 'new'); get = mir.method('CompactionState', 'get_smallest_snapshot')
+    res = Result('O3.5 CompactionState carries the oldest-snapshot bound unchanged', [new.path, get.path], 'bound free (64 bit)')
+    t0 = time.time()
+    S = lib.std_summaries()
+    ex = Exec(mir, S, loop_bound=3)
+    s = BitVec('oldest_snapshot_sequence', 64)
+    sf = mir.struct_fields('CompactionState')
+    def made(st, env, pc):
+        e = dict(env); e['$st'] = st
+        def got(v, e2, p2):
+            posts = [('the bound the merge loop consults is not the oldest-snapshot sequence number that was computed for this compaction (entries a live snapshot still reads can be dropped, or shadowed entries are kept for ever)', v == s),
+                     ('a new compaction state does not carry the manifest it was given / already lists outputs', BoolVal(isinstance(st[sf.index('compaction_manifest')], dict) and st[sf.index('compaction_manifest')].get('marker') == 'manifest' and st[sf.index('output_files')] == []))]
+            res.cases['new + get'] = 1
+            for label, post, m in ex.check_posts(posts, p2):
+                res.violations.append({'label': label, 'bound': mval(m, s), 'replay': ['snapshot_list', 'new:0']})
+        ex.run_fn(get, [Ref('$st')], e, pc, got)
+    ex.top(new, [{'marker': 'manifest', '__ty': 'CompactionManifest'}, s], {'$state': {}}, [], made)
+    res.absorb(ex)
+    res.wall_s = time.time() - t0
+    if res.violations: res.status = 'violation'
+    return res
